@@ -99,6 +99,14 @@ for cls, mod in (('Socket', 'socket'), ('AsyncSocket', 'async_socket')):
     c.ensures('queue-wf', 'self.queue.unf >= len(self.queue.items)')
     c.ensures('taken-unchanged', 'self.queue.taken == old(self.queue.taken)')
     c.modifies(*SOCK_MOD)
+    if c.qualnames[0].endswith('.receive'):
+        # ghost: every packet handed to receive() is logged, whatever its outcome
+        c.ghost_entry('received', 'received + [pkt]')
+        c.ensures('logged-received', 'received == old(received) + [pkt]')
+        for rc in c.raises_:
+            rc.ensures.append(__import__('pyvc.contract', fromlist=['Clause']).Clause(
+                'logged-received', 'received == old(received) + [pkt]', c.props))
+        c.modifies('ghost.received')
 
 # ----------------------------------------------------------------------------------------- send
     c = REG.contract('%s.%s.send' % (mod, cls), props=['C03', 'C07', 'C16', 'C18'])
@@ -118,6 +126,14 @@ for cls, mod in (('Socket', 'socket'), ('AsyncSocket', 'async_socket')):
     c.ensures('queue-wf', 'self.queue.unf >= len(self.queue.items)')
     c.ensures('taken-unchanged', 'self.queue.taken == old(self.queue.taken)')
     c.modifies(*SOCK_MOD)
+    if c.qualnames[0].endswith('.receive'):
+        # ghost: every packet handed to receive() is logged, whatever its outcome
+        c.ghost_entry('received', 'received + [pkt]')
+        c.ensures('logged-received', 'received == old(received) + [pkt]')
+        for rc in c.raises_:
+            rc.ensures.append(__import__('pyvc.contract', fromlist=['Clause']).Clause(
+                'logged-received', 'received == old(received) + [pkt]', c.props))
+        c.modifies('ghost.received')
 
 # ---------------------------------------------------------------------------------------- close
     c = REG.contract('%s.%s.close' % (mod, cls), props=['C05', 'C15', 'C16', 'C18'])
@@ -239,3 +255,49 @@ for cls, mod in (('Socket', 'socket'), ('AsyncSocket', 'async_socket')):
     c.ensures('queue-wf', 'self.queue.unf >= len(self.queue.items)')
     c.ensures('taken-unchanged', 'self.queue.taken == old(self.queue.taken)')
     c.modifies(*SOCK_MOD)
+    if c.qualnames[0].endswith('.receive'):
+        # ghost: every packet handed to receive() is logged, whatever its outcome
+        c.ghost_entry('received', 'received + [pkt]')
+        c.ensures('logged-received', 'received == old(received) + [pkt]')
+        for rc in c.raises_:
+            rc.ensures.append(__import__('pyvc.contract', fromlist=['Clause']).Clause(
+                'logged-received', 'received == old(received) + [pkt]', c.props))
+        c.modifies('ghost.received')
+
+# ------------------------------------------------------------------------- handle_post_request
+POST_MOD = SOCK_MOD + ['ghost.reads', 'ghost.received', 'Packet.binary', 'Packet.packet_type',
+                       'Packet.data', 'Packet.encode_cache']
+ENV_POST = ("'wsgi.input' in environ and ('CONTENT_LENGTH' not in environ or "
+            "(int_ok(environ['CONTENT_LENGTH']) and int(environ['CONTENT_LENGTH']) >= 0))")
+NOTHING_DISPATCHED = ('received == old(received) and events == old(events) and '
+                      'spawned == old(spawned) and ' + FLAGS_SAME +
+                      ' and self.queue.accepted == old(self.queue.accepted)')
+for cls, mod in (('Socket', 'socket'), ('AsyncSocket', 'async_socket')):
+    c = REG.contract('%s.%s.handle_post_request' % (mod, cls), props=['C04', 'C14', 'C18'])
+    c.param('self', Ref(cls)).param('environ', ENV)
+    c.requires(SOCK_WF, 'socket-wf')
+    c.requires(ENV_POST, 'gateway-environ')
+    c.requires('self.server.max_http_buffer_size >= 0', 'limit-nonneg')
+    c.raises('ContentTooLongError',
+             "int(environ.get('CONTENT_LENGTH', '0')) > self.server.max_http_buffer_size",
+             label='oversize-refused-unread',
+             ensures=[('nothing-read', 'reads == old(reads)'),
+                      ('nothing-dispatched', NOTHING_DISPATCHED)], props=['C14', 'C04'])
+    for exc in ('ValueError', 'KeyError', 'RecursionError'):
+        c.may_raise(exc, 'True', label='undecodable-' + exc,
+                    ensures=[('nothing-dispatched', NOTHING_DISPATCHED)], props=['C04', 'C14'])
+    c.may_raise('UnknownPacketError', 'True')
+    c.may_raise('SocketIsClosedError', 'True')
+    c.ensures('reads-declared-length-within-limit',
+              "reads == old(reads) + [int(environ.get('CONTENT_LENGTH', '0'))] and "
+              "int(environ.get('CONTENT_LENGTH', '0')) <= self.server.max_http_buffer_size",
+              props=['C14'])
+    c.ensures('at-most-16-packets', 'len(received) <= len(old(received)) + 16', props=['C14', 'C02'])
+    c.ensures('received-in-order', 'received[0:len(old(received))] == old(received)',
+              props=['C04'])
+    c.ensures('queue-wf', 'self.queue.unf >= len(self.queue.items)')
+    c.modifies(*POST_MOD)
+    c.loop(0, index='i', invariants=[
+        ('each-once-in-order', 'received == old(received) + p.packets[0:i]'),
+        ('queue-wf', 'self.queue.unf >= len(self.queue.items)')],
+        modifies=SOCK_MOD + ['ghost.received'], props=['C04'])
